@@ -405,6 +405,11 @@ func c20Scripts(r *rng, n int, thorough bool) []c20Case {
 		c20Op{Kind: "boot", Node: 1}, c20Op{Kind: "join", Node: 2, Via: 1}, c20Op{Kind: "join", Node: 3, Via: 1},
 		c20Op{Kind: "remove", Node: 3}, c20Op{Kind: "snapshot", Node: 2}, c20Op{Kind: "restart", Node: 2},
 		c20Op{Kind: "join", Node: 4, Via: 2})
+	add("the membership log is compacted before a join: the joiner is brought up to date by the leader's snapshot",
+		c20Op{Kind: "boot", Node: 1}, c20Op{Kind: "join", Node: 2, Via: 1}, c20Op{Kind: "snapshot", Node: 1}, c20Op{Kind: "join", Node: 3, Via: 1},
+		c20Op{Kind: "settle"}, c20Op{Kind: "restart", Node: 3})
+	add("a single node compacts, then the first joiner arrives and restarts",
+		c20Op{Kind: "boot", Node: 1}, c20Op{Kind: "snapshot", Node: 1}, c20Op{Kind: "join", Node: 2, Via: 1}, c20Op{Kind: "settle"}, c20Op{Kind: "restart", Node: 2})
 	add("join through a follower whose leader has just been cut off",
 		c20Op{Kind: "boot", Node: 1}, c20Op{Kind: "join", Node: 2, Via: 1}, c20Op{Kind: "join", Node: 3, Via: 1}, c20Op{Kind: "settle"},
 		c20Op{Kind: "cut", Node: 1}, c20Op{Kind: "join", Node: 4, Via: 2}, c20Op{Kind: "heal"})
